@@ -23,6 +23,10 @@ type InterfaceMethod struct {
 	Name    string
 	Inputs  []InterfaceType
 	Outputs []InterfaceType
+
+	// Sig is the method's signature as seen by the type checker (nil for hand-built models).
+	// When both sides carry it, signatures are compared by Go's own type identity.
+	Sig *types.Signature
 }
 
 // InterfaceType
@@ -130,6 +134,7 @@ func extractMethodsFromInterface(iface *types.Interface) []InterfaceMethod {
 			Name:    method.Name(),
 			Inputs:  extractTypesFromTuple(sig.Params(), sig.Variadic()),
 			Outputs: extractTypesFromTuple(sig.Results(), false),
+			Sig:     sig,
 		})
 	}
 
